@@ -7,11 +7,21 @@
 (***************************************************************************)
 EXTENDS BF
 
-VARIABLE ev              \* history: the events emitted so far
-mcvars == <<machine, ev>>
+VARIABLE ev,             \* history: the events emitted so far
+         pred            \* prediction made when a linear loop is entered: <<exit pc, tape, ptr, events>>
+mcvars == <<machine, ev, pred>>
 
-MCInit == Init /\ ev = <<>>
-MCNext == Step /\ ev' = (IF last' = NoEv THEN ev ELSE Append(ev, last'))
+\* entering a linear loop (the machine itself runs it step by step here)
+HereEff == LoopEff(Prog, pc, jt[pc])
+EntersLinear == status = "run" /\ Op = "[" /\ ~CIsZero(Cell(ptr)) /\ HereEff # <<>>
+
+MCInit == Init /\ ev = <<>> /\ pred = <<>>
+MCNext == /\ Step
+          /\ ev' = (IF last' = NoEv THEN ev ELSE Append(ev, last'))
+          /\ pred' = IF EntersLinear
+                     THEN <<jt[pc] + 1, AccelTape(tape, ptr, HereEff, W), ptr, evN,
+                            lo, hi, ptr + HereEff[3], ptr + HereEff[4]>>
+                     ELSE IF pred # <<>> /\ pc = pred[1] THEN <<>> ELSE pred
 MCSpec == MCInit /\ [][MCNext]_mcvars
 
 \* ---- independent definition of bracket matching: scan with a depth counter
@@ -22,10 +32,16 @@ CloseOf(prog, j, depth) ==      \* position of the "]" closing the bracket opene
   ELSE CloseOf(prog, j + 1, depth)
 JumpsMatch ==
   \A k \in 1..Len(Prog) :
-    Prog[k] = "[" => /\ Jump[c][k] = CloseOf(Prog, k + 1, 0)
-                     /\ Jump[c][Jump[c][k]] = k
+    Prog[k] = "[" => /\ jt[k] = CloseOf(Prog, k + 1, 0)
+                     /\ jt[jt[k]] = k
 
 \* ---- invariants
+\* the one-step summary of a linear loop (BF!Accel) is what the step-by-step run arrives at:
+\* same tape, pointer, no event, and the pointer excursion the summary declares
+AccelSound ==
+  (pred # <<>> /\ pc = pred[1] /\ status = "run") =>
+     /\ tape = pred[2] /\ ptr = pred[3] /\ evN = pred[4]
+     /\ lo = Min(pred[5], pred[7]) /\ hi = Max(pred[6], pred[8])
 HistoryOK == /\ Len(ev) = evN
              /\ (last # NoEv => ev # <<>> /\ ev[Len(ev)] = last)
 \* a run proved divergent never halts (the machine keeps running after the proof)
